@@ -233,9 +233,31 @@ pub fn cases(tier: Tier) -> Vec<Case> {
             out.push(Case { body: b.clone().into_bytes(), name: name.to_string(), filters: f.clone(), headers: h.clone() });
         }
     }
+    // nothing buildable although the encoding is supported: the (compressed) body must pass through untouched
+    for (enc_name, enc) in [("gzip", crate::props::c14::Enc::Gzip(0)), ("deflate", crate::props::c14::Enc::Zlib(1)), ("br", crate::props::c14::Enc::Brotli(0, 16))] {
+        for b in curated.iter().take(3) {
+            let stream = enc.encode(b.as_bytes());
+            for (name, f) in [
+                ("unbuildable+supported-encoding(non-html)", vec![FilterSpec::html("replace", &["div"], None, S1)]),
+                ("unbuildable+supported-encoding(unknown-action)", vec![FilterSpec::html("frobnicate", &["div"], None, S1)]),
+                ("unbuildable+supported-encoding(empty-path)", vec![FilterSpec::html("append_child", &[], None, S1)]),
+            ] {
+                let mut headers: Headers = vec![("Content-Encoding".into(), enc_name.to_string())];
+                if name.contains("non-html") {
+                    headers.push(("Content-Type".into(), "application/json".into()));
+                }
+                // short streams only: every partition is explored
+                if stream.len() <= 160 {
+                    out.push(Case { body: stream.clone(), name: name.to_string(), filters: f, headers });
+                }
+            }
+        }
+    }
     // byte faults and truncation at every byte
-    let fault_bodies = tier.pick(8, curated.len());
-    let fault_filters: Vec<usize> = tier.pick(vec![0, 1, 3], (0..fl.len()).collect());
+    let fault_bodies = tier.pick(6, curated.len());
+    // index 10 = append[html,body]+replace[div]: two HTML stages that can both hold bytes
+    let two_html = fl.iter().position(|(n, _)| *n == "append[html,body]+replace[div]").unwrap_or(0);
+    let fault_filters: Vec<usize> = tier.pick(vec![0, 1, 3, two_html], (0..fl.len()).collect());
     for b in curated.iter().take(fault_bodies) {
         let bytes = b.as_bytes();
         for pos in 0..=bytes.len() {
